@@ -155,7 +155,7 @@ def _cases(draw):
         # a settings sheet that only has its header row yet, perhaps beside an unrelated sheet with a similar name
         form["settings_header_only"] = ["form_title", "form_id", "version"]
         if g.p("_", 0.5):
-            form["sheet_names"] = dict(form.get("sheet_names", {}), settings=g.pick(["Settings", "SETTINGS", "settings"]))
+            form["sheet_names"] = dict(form.get("sheet_names", {}), settings=g.pick(["Settings", "SETTINGS", "settings", "settings ", " Settings"]))
         if g.p("_", 0.5):
             form["extra_sheets"] = [g.pick(["settings2", "setting", "notes"])]
     if g.p("_", 0.12):
